@@ -616,6 +616,11 @@ class TreeTensorNetwork(TreeStructure):
             old_node_id (str): The old identifier of the node.
 
         """
+        if old_node_id != new_node_id:
+            # Reject before anything is moved, so a refused call leaves the
+            # network as it was.
+            self.ensure_existence(old_node_id)
+            self.ensure_uniqueness(new_node_id)
         self.tensors[new_node_id] = self._tensors.pop(old_node_id)
         super().change_node_identifier(new_node_id, old_node_id)
 
